@@ -588,6 +588,12 @@ func (s *Stream) onInboundStreamReset() {
 	//	is completed, the data channel is closed.
 
 	s.readErr = io.EOF
+	if s.readTimeoutCancel != nil {
+		// The stream is about to leave the association's table, where the teardown
+		// would look for it; end-of-stream supersedes the deadline anyway.
+		close(s.readTimeoutCancel)
+		s.readTimeoutCancel = nil
+	}
 	s.readNotifier.Broadcast()
 
 	if s.state == StreamStateClosing {
